@@ -26,7 +26,8 @@ from .. import tlc
 from .c05 import raised_by_real_code
 
 PID = "C07"
-ACTIONS = ["Create", "Iterate", "Patch", "Store", "Load"]
+ACTIONS = ["Create", "Iterate", "Patch", "Store", "Load", "Reparam"]
+DOSINI_VIEW = ("live", "plat", "uv", "sv", "nrep", "iters", "dopt")       # the facts of View a legacy package is compared on
 
 THREADS = {"dg": 1, "ds": 2, "pg": 4, "ps": 8}            # numberThreads given by each blueprint layer (spec: Value)
 BP_LAYERS = {"g": ["dg"], "gs": ["dg", "ds"], "sP": ["ds", "pg"], "all": ["dg", "ds", "pg", "ps"]}    # spec: Defines
@@ -44,9 +45,28 @@ def lazy_kind(pk):
     return "+".join(x for x, on in (("replica", pk["repl"]), ("loopIteration", pk["loop"])) if on)
 
 
+def dosini_package_files(pk):
+    """the same layout in the legacy format (default platform, no loop): conf/experiment.conf, variables.conf, stages.d/"""
+    opt = "[opt]\nexecutable=echo\narguments=x %(zero)s [%(es)s]\n"
+    if pk.get("ex", "absent") == "empty":
+        opt += "max-restarts=0\nrepeatRetries=0\nresolvePath=false\nes=\nzero=0\n"
+    work = "[work]\nexecutable=echo\narguments=stage0.gen:ref %(uv)s\nreferences=stage0.gen:ref\n" + ("replicate=%(n)s\n" if pk["repl"] else "")
+    gather = "[gather]\nexecutable=echo\narguments=stage1.work:ref\nreferences=stage1.work:ref\n" + ("aggregate=yes\n" if pk["repl"] else "")
+    return {
+        "conf/experiment.conf": "[ENV-MYENV]\nDEFAULTS=PATH\nFOO=foo\n",
+        "conf/variables.conf": "[GLOBAL]\nuv=d-uv\nn=2\nes=text\nzero=5\n\n[STAGE0]\nsv=d-sv\n",
+        "conf/stages.d/stage0.conf": "[gen]\nexecutable=echo\narguments=%(uv)s %(sv)s\nenvironment=myenv\n\n" + opt,
+        "conf/stages.d/stage1.conf": work,
+        "conf/stages.d/stage2.conf": gather,
+        "conf/stages.d/stage3.conf": "[report]\nexecutable=echo\narguments=stage2.gather:ref\nreferences=stage2.gather:ref\n",
+    }
+
+
 def package_files(pk):
     """stage 0: gen; stage 1: work (looped / replicated); stage 2: gather (+ stop, the condition); stage 3: report"""
     import yaml
+    if pk.get("fmt", "flowir") == "dosini":
+        return dosini_package_files(pk)
     lz = lazy_suffix(pk)
     wargs = " %(uv)s %(pv)s" + (" %(lz)s" if lz else "")
     wattr = {"replicate": "%(n)s"} if pk["repl"] else None
@@ -68,7 +88,7 @@ def package_files(pk):
     if pk.get("ex", "absent") == "empty":         # explicitly empty / zero / false, where the defaults are not
         opt.update({"variables": {"es": "", "zero": 0, "flag": False}, "references": [],
                     "executors": {"pre": [], "main": [], "post": []},
-                    "workflowAttributes": {"restartHookOn": [], "shutdownOn": [], "repeatRetries": 0,
+                    "workflowAttributes": {"restartHookOn": [], "shutdownOn": [], "repeatRetries": 0, "maxRestarts": 0,
                                            "memoization": {"disable": {"strong": False}}}})
     comps.append(opt)
     if pk["loop"]:
@@ -115,6 +135,8 @@ def package_files(pk):
 
 
 def user_variables(pk):
+    if pk.get("fmt", "flowir") == "dosini":
+        return {"global": "[GLOBAL]\nuv=U-uv\nn=3\n", "stage": "[GLOBAL]\nuv=U-uv\n\n[STAGE0]\nsv=U-sv\n"}.get(pk["uv"])
     if pk["uv"] == "global":
         return "global:\n  uv: U-uv\n  n: 3\n"
     if pk["uv"] == "stage":
@@ -123,7 +145,7 @@ def user_variables(pk):
 
 
 # ----------------------------------------------------------------------------------------------------------------
-def project(exp):
+def project(exp, legacy=False):
     """the complete observable description of a live experiment (JSON-able, canonical)"""
     wg = exp.experimentGraph
     out = {"nodes": {}, "placeholders": {}, "dowhile": {}}
@@ -146,7 +168,9 @@ def project(exp):
     for d, v in wg._documents.get("DoWhile", {}).items():
         out["dowhile"][d] = {"state": v.get("state"), "document": v.get("document")}
     out["platform"] = wg.configuration.platform_name
-    out["globals"] = wg.configuration.get_global_variables()
+    # a legacy instance keeps its variables per stage ([META] of stageN.instance.conf): the global scope is empty after a reload
+    # although every component resolves the same; the global scope is only compared for FlowIR packages
+    out["globals"] = wg.configuration.get_global_variables() if not legacy else "<not compared>"
     out["stages"] = wg.numberStageConfigurations
     concrete = wg.configuration.get_flowir_concrete(return_copy=True)
     out["output"] = concrete.get_output()
@@ -175,8 +199,24 @@ def diff(a, b, path="", out=None, limit=12):
     return out
 
 
+def observed_view_dosini(exp, pk):
+    wg = exp.experimentGraph
+    gen = wg.configurationForNode("stage0.gen", raw=False)
+    oc = wg.configurationForNode("stage0.opt", raw=False)
+    ow, ov = oc["workflowAttributes"], oc["variables"]
+    works = sorted(n for n in wg.graph.nodes if n.startswith("stage1.work"))
+    a = gen["command"]["arguments"].split()
+    wargs = sorted({tuple(wg.configurationForNode(n, raw=False)["command"]["arguments"].split()[1:2]) for n in works})
+    return {"live": True, "plat": wg.configuration.platform_name, "uv": a[0], "sv": a[1], "nrep": len(works) if pk["repl"] else 0,
+            "iters": 0, "dopt": {"retries": ow["repeatRetries"], "maxr": -1 if ow["maxRestarts"] is None else ow["maxRestarts"],
+                                 "rpath": oc["command"]["resolvePath"], "es": ov.get("es"), "zero": str(ov.get("zero"))},
+            "_work_uv": wargs, "_opt_args": oc["command"]["arguments"]}
+
+
 def observed_view(exp, pk):
     """the facts of spec View(), read off the real objects"""
+    if pk.get("fmt", "flowir") == "dosini":
+        return observed_view_dosini(exp, pk)
     wg = exp.experimentGraph
     gen = wg.configurationForNode("stage0.gen", raw=False)
     v = gen["variables"]
@@ -208,6 +248,7 @@ def observed_view(exp, pk):
     oc = wg.configurationForNode("stage0.opt", raw=False)
     ow, ov = oc["workflowAttributes"], oc["variables"]
     opt = {"hook": ow["restartHookOn"], "shut": ow["shutdownOn"], "retries": ow["repeatRetries"],
+           "maxr": -1 if ow["maxRestarts"] is None else ow["maxRestarts"],
            "memo": ow["memoization"]["disable"]["strong"], "es": ov.get("es"), "zero": ov.get("zero"), "flag": ov.get("flag")}
     return {"opt": opt, "live": True, "plat": wg.configuration.platform_name, "uv": v.get("uv"), "pv": v.get("pv"), "sv": v.get("sv"),
             "nrep": nrep, "wall": int(gen["resourceManager"]["config"]["walltime"]), "ovr": ovr,
@@ -217,10 +258,19 @@ def observed_view(exp, pk):
             "_args": args, "_work_args": sorted(wargs), "_lz": lzs, "_every_iteration_same_replicas": every}
 
 
-def canon_files(loc):
+def canon_files(loc, legacy=False):
+    """the stored description; for a legacy package it is the .instance.conf files (flowir_instance.yaml is a by-product there)"""
     import yaml
     out = {}
-    for f in ("flowir_instance.yaml", "manifest.yaml"):
+    conf = os.path.join(loc, "conf")
+    ini = [os.path.join("stages.d", f) for f in sorted(os.listdir(os.path.join(conf, "stages.d")))
+           if f.endswith(".instance.conf")] if os.path.isdir(os.path.join(conf, "stages.d")) else []
+    for f in ["experiment.instance.conf"] + ini:
+        p = os.path.join(conf, f)
+        if os.path.exists(p):
+            with open(p) as fh:
+                out[f] = {"lines": sorted(l.strip() for l in fh if l.strip())}
+    for f in (("manifest.yaml",) if legacy else ("flowir_instance.yaml", "manifest.yaml")):
         p = os.path.join(loc, "conf", f)
         if not os.path.exists(p):
             out[f] = None
@@ -256,9 +306,20 @@ class History:
         vf = None
         uv = user_variables(self.pk)
         if uv:
-            vf = os.path.join(self.scratch, "uservars.yaml")
+            vf = os.path.join(self.scratch, "uservars.%s" % ("conf" if self.pk.get("fmt") == "dosini" else "yaml"))
             with open(vf, "w") as f:
                 f.write(uv)
+        if self.pk.get("stale"):
+            # conf/ of the package was copied from an old instance of the same workflow (made for the other platform, without
+            # user variables): its flowir_instance.yaml / manifest.yaml come along
+            other = "plat" if self.platform is None else None
+            donor_root = os.path.join(self.scratch, "donor")
+            os.makedirs(donor_root)
+            dpkg = experiment.model.storage.ExperimentPackage.packageFromLocation(pkdir, platform=other)
+            donor = experiment.model.data.Experiment.experimentFromPackage(dpkg, location=donor_root, platform=other)
+            for f in ("flowir_instance.yaml", "manifest.yaml"):
+                shutil.copy(os.path.join(donor.instanceDirectory.location, "conf", f), os.path.join(pkdir, "conf", f))
+            shutil.rmtree(donor_root, ignore_errors=True)
         pkg = experiment.model.storage.ExperimentPackage.packageFromLocation(pkdir, platform=self.platform)
         self.exp = experiment.model.data.Experiment.experimentFromPackage(
             pkg, location=self.scratch, platform=self.platform, variable_files=[vf] if vf else None)
@@ -267,8 +328,9 @@ class History:
         self.remember()
 
     def remember(self):
-        self.stored_projection = project(self.exp)
-        self.stored_files = canon_files(self.loc)
+        legacy = self.pk.get("fmt") == "dosini"
+        self.stored_projection = project(self.exp, legacy)
+        self.stored_files = canon_files(self.loc, legacy)
 
     def iterate(self, store):
         wg = self.exp.experimentGraph
@@ -278,9 +340,20 @@ class History:
         if store:
             self.remember()
 
+    def reparam(self, platform):
+        """the directory is loaded as a package for another platform; the experiment stores its description over the old one"""
+        import experiment.model.data
+        import experiment.model.storage
+        self.platform = None if platform == "default" else platform
+        inst = experiment.model.storage.ExperimentInstanceDirectory(self.loc, ignoreExisting=True)
+        self.exp = experiment.model.data.Experiment(inst, platform=self.platform, is_instance=False, updateInstanceConfiguration=True)
+        self.exp.validateExperiment(checkExecutables=False)
+        self.remember()
+
     def do_patch(self):
-        self.patch += 1
         conf = self.exp.configuration
+        cur = self.exp.experimentGraph.configurationForNode("stage0.gen", raw=False)["variables"]["pp"]
+        self.patch = int(cur) + 1
         for concrete in (conf.get_flowir_concrete(return_copy=False), conf.get_unreplicated_flowir(return_copy=False)):
             concrete.set_component_option((0, "gen"), "pp", self.patch)
 
@@ -316,12 +389,20 @@ def diff_class(d):
 
 def label(pk):
     return "%s-%s%s%s-bp%s%s" % (pk["plat"], pk["uv"], "-repl" if pk["repl"] else "", "-loop" if pk["loop"] else "", pk["bp"],
-                                 "-explicit-empties" if pk.get("ex") == "empty" else "")
+                                 ("-explicit-empties" if pk.get("ex") == "empty" else "") + ("-dosini" if pk.get("fmt") == "dosini" else "") +
+                                 ("-stale-instance-file-in-package" if pk.get("stale") else ""))
 
 
 def hist_str(hist):
-    return " ".join("%s%s" % (h["a"], "(%s)" % ("store" if h["flag"] else "nostore") if h["a"] == "Iterate" else
-                              "(%s)" % ("update" if h["flag"] else "readonly") if h["a"] == "Load" else "") for h in hist)
+    def one(h):
+        if h["a"] == "Iterate":
+            return "Iterate(%s)" % ("store" if h["flag"] else "nostore")
+        if h["a"] == "Load":
+            return "Load(%s)" % ("update" if h["flag"] else "readonly")
+        if h["a"] == "Reparam":
+            return "Reparam(%s)" % ("plat" if h["flag"] else "default")
+        return h["a"]
+    return " ".join(one(h) for h in hist)
 
 
 def run_history(args):
@@ -334,6 +415,7 @@ def run_history(args):
         res["viol"].append((key_of(pk, site, hist[:i + 1], detail), "package %s, history [%s]: %s" % (label(pk), hist_str(hist[:i + 1]), msg),
                             {"pk": pk, "hist": hist[:i + 1]}))
     known_bad = set()
+    dosini_pk = pk.get("fmt", "flowir") == "dosini"
     try:
         for i, step in enumerate(hist):
             a, flag = step["a"], step["flag"]
@@ -349,6 +431,8 @@ def run_history(args):
                 elif a == "Load":
                     before_files = h.stored_files
                     h.load(flag)
+                elif a == "Reparam":
+                    h.reparam("plat" if flag else "default")
                 else:
                     raise MachineryError("unknown action %s" % a)
             except MachineryError:
@@ -363,26 +447,34 @@ def run_history(args):
             want = expected[i]["mem"]
             try:
                 got = observed_view(h.exp, pk)
-                after = project(h.exp) if a == "Load" else None
+                after = project(h.exp, dosini_pk) if a == "Load" else None
             except Exception as e:
                 if raised_by_real_code(e):
                     viol("raises-observing-after-%s" % a, i, "reading the configuration of the experiment after %s raised %s: %s" % (
                         a, type(e).__name__, str(e)[:300]), type(e).__name__)
                     break
                 raise
-            bad = {k: (got[k], want[k]) for k in want if k != "lzp" and got[k] != want[k]}
+            dosini = pk.get("fmt", "flowir") == "dosini"
+            keys = DOSINI_VIEW if dosini else [k for k in want if k not in ("lzp", "dopt")]
+            bad = {k: (got[k], want[k]) for k in keys if got[k] != want[k]}
+            if dosini:
+                if got["_work_uv"] != [(want["uv"],)]:
+                    bad["command line of work"] = (got["_work_uv"], want["uv"])
+                wopt = "x %s [%s]" % (want["dopt"]["zero"], want["dopt"]["es"])
+                if got["_opt_args"] != wopt:
+                    bad["command line of opt"] = (got["_opt_args"], wopt)
             lz = lazy_suffix(pk)
-            for (it, rep), val in sorted(got["_lz"].items()):
+            for (it, rep), val in sorted(({} if dosini else got["_lz"]).items()):
                 wlz = None if not lz else (want["lzp"] + ("-%d" % rep if pk["repl"] else "") + ("-%d" % it if pk["loop"] else "") + "-fast")
                 if val != wlz:
                     bad["lazy stage variable lz[%s]" % lazy_kind(pk)] = ((it, rep, val), wlz)
                     break
             exp_args = [want["uv"], want["pv"], want["sv"], "g-" + want["pv"], str(want["pp"])]
-            if got["_args"] != exp_args:
+            if not dosini and got["_args"] != exp_args:
                 bad["command line of stage0.gen"] = (got["_args"], exp_args)
-            if got["_work_args"] != [(want["uv"], want["pv"])]:
+            if not dosini and got["_work_args"] != [(want["uv"], want["pv"])]:
                 bad["command line of work"] = (got["_work_args"], [(want["uv"], want["pv"])])
-            if not got["_every_iteration_same_replicas"]:
+            if not dosini and not got["_every_iteration_same_replicas"]:
                 bad["replicas per iteration"] = ("differ", "equal")
             fields = "+".join(sorted(k.split()[-1] for k in bad if k not in known_bad))
             if fields:
@@ -407,7 +499,7 @@ def run_history(args):
                         len(d), "; ".join(x[:300] for x in d[:4])),
                          diff_class(d[0]) + ("[lz:%s]" % lazy_kind(pk) if any("/lz:" in x for x in d) else ""))
                 if flag:
-                    now = canon_files(h.loc)
+                    now = canon_files(h.loc, dosini_pk)
                     d = diff(before_files, now)
                     if d:
                         viol("stored-description-changed", i, "load + store changed the stored description: %s" % "; ".join(x[:300] for x in d[:4]),
@@ -426,16 +518,18 @@ def run_history(args):
 
 
 def cfg_text(platforms, uservars, repls, loops, maxiter, maxpatch, maxlen, emit, props=True, blueprints=("g", "gs", "sP", "all"),
-             empties=("absent", "empty")):
+             empties=("absent", "empty"), formats=("flowir",), stales=(False,), reparam=("default", "plat")):
     def s(xs):
         return "{" + ", ".join(xs) + "}"
-    t = ("CONSTANTS\n  Platforms = %s\n  UserVars = %s\n  Repls = %s\n  LoopsC = %s\n  Blueprints = %s\n  Empties = %s\n  MaxIter = %d\n  MaxPatch = %d\n  MaxLen = %d\n  Emit = %s\n"
+    t = ("CONSTANTS\n  Platforms = %s\n  UserVars = %s\n  Repls = %s\n  LoopsC = %s\n  Blueprints = %s\n  Empties = %s\n  Formats = %s\n  Stales = %s\n  ReparamTo = %s\n  MaxIter = %d\n  MaxPatch = %d\n  MaxLen = %d\n  Emit = %s\n"
          "SPECIFICATION Spec\nVIEW view\nCONSTRAINT Bounded\nCHECK_DEADLOCK FALSE\n") % (
         s('"%s"' % p for p in platforms), s('"%s"' % u for u in uservars), s("TRUE" if r else "FALSE" for r in repls),
-        s("TRUE" if r else "FALSE" for r in loops), s('"%s"' % b for b in blueprints), s('"%s"' % e for e in empties), maxiter, maxpatch, maxlen, "TRUE" if emit else "FALSE")
+        s("TRUE" if r else "FALSE" for r in loops), s('"%s"' % b for b in blueprints), s('"%s"' % e for e in empties),
+        s('"%s"' % f for f in formats), s("TRUE" if x else "FALSE" for x in stales), s('"%s"' % q for q in reparam), maxiter, maxpatch, maxlen, "TRUE" if emit else "FALSE")
     if props:
         t += ("INVARIANT TypeOK\nINVARIANT CreationOptionsSurvive\nINVARIANT DiskNeverAhead\nINVARIANT ViewIndependentOfOrigin\n"
-              "PROPERTY StoreLoadIdentity\nPROPERTY LoadYieldsStored\nPROPERTY LoadStoreIdempotent\nPROPERTY StoreCapturesAll\nPROPERTY IterateCommutesWithReload\n")
+              "PROPERTY StoreLoadIdentity\nPROPERTY LoadYieldsStored\nPROPERTY LoadStoreIdempotent\nPROPERTY StoreCapturesAll\nPROPERTY IterateCommutesWithReload\n"
+              "PROPERTY PlatformOnlyChangesByReparam\nPROPERTY LastStoreWins\n")
     if emit:
         t += "ACTION_CONSTRAINT EmitStep\n"
     return t
@@ -513,20 +607,29 @@ def run(tier):
     os.makedirs(gen, exist_ok=True)
     thorough = tier == "thorough"
     full = dict(platforms=["default", "plat"], uservars=["none", "global", "stage"], repls=[False, True], loops=[False, True],
-                blueprints=["g", "gs", "sP", "all"], empties=["absent", "empty"])
+                blueprints=["g", "gs", "sP", "all"], empties=["absent", "empty"], formats=["flowir", "dosini"], stales=[False, True])
     maxlen, maxiter, maxpatch = 5, 2, 1
+    flowir = dict(full, formats=["flowir"], stales=[False], reparam=["default", "plat"])
+    norp = dict(flowir, reparam=[])          # quick: most families without re-parametrisation
     if thorough:
-        families = [full]                  # all 192 packages
+        families = [
+            flowir,                                                                           # all 192 FlowIR packages
+            dict(flowir, stales=[True], blueprints=["sP"], empties=["empty"]),                # + a stale instance file in the package
+            dict(full, platforms=["default"], loops=[False], blueprints=["g"], formats=["dosini"], stales=[False]),   # legacy format
+        ]
     else:
         # sub-families (each a product) that together cover every value of every dimension with a loop and every pair
         # (platform, blueprint layers), (platform, user variables), (user variables, replication)
         families = [
-            dict(full, platforms=["plat"], uservars=["none"], repls=[True], loops=[True], empties=["empty"]),
-            dict(full, platforms=["default"], uservars=["none"], repls=[True], loops=[True], blueprints=["g", "gs"], empties=["absent"]),
-            dict(full, platforms=["plat"], uservars=["global"], repls=[True], loops=[True], blueprints=["sP"], empties=["absent"]),
-            dict(full, platforms=["default"], uservars=["stage"], repls=[False], loops=[True], blueprints=["gs"], empties=["empty"]),
-            dict(full, loops=[False], blueprints=["gs"]),
-            dict(full, platforms=["plat"], uservars=["none"], repls=[True], loops=[False], blueprints=["g", "sP", "all"], empties=["empty"]),
+            dict(norp, platforms=["plat"], uservars=["none"], repls=[True], loops=[True], blueprints=["g", "gs", "all"], empties=["empty"]),
+            dict(flowir, platforms=["plat"], uservars=["none"], repls=[True], loops=[True], blueprints=["sP"], empties=["empty"]),
+            dict(flowir, platforms=["default"], uservars=["none"], repls=[True], loops=[True], blueprints=["g", "gs"], empties=["absent"], stales=[True]),
+            dict(norp, platforms=["plat"], uservars=["global"], repls=[True], loops=[True], blueprints=["sP"], empties=["absent"]),
+            dict(norp, platforms=["default"], uservars=["stage"], repls=[False], loops=[True], blueprints=["gs"], empties=["empty"]),
+            dict(norp, loops=[False], blueprints=["gs"]),
+            dict(flowir, uservars=["global"], repls=[True], loops=[False], blueprints=["gs"], empties=["empty"], stales=[True]),
+            dict(norp, platforms=["plat"], uservars=["none"], repls=[True], loops=[False], blueprints=["g", "sP", "all"], empties=["empty"]),
+            dict(full, platforms=["default"], loops=[False], blueprints=["g"], formats=["dosini"], stales=[False]),
         ]
     # 1. the design (whole family, one step deeper than the histories that are executed)
     c1 = _cfg(os.path.join(gen, "InstanceStore_mc_%s.cfg" % tier), cfg_text(maxiter=maxiter, maxpatch=2, maxlen=maxlen + 2, emit=False, **full))
@@ -595,7 +698,8 @@ def replay(path):
     os.makedirs(gen, exist_ok=True)
     c = _cfg(os.path.join(gen, "InstanceStore_replay_%d.cfg" % os.getpid()),
              cfg_text([pk["plat"]], [pk["uv"]], [pk["repl"]], [pk["loop"]], 2, 2, len(hist) + 1, True, props=False,
-                      blueprints=[pk.get("bp", "g")], empties=[pk.get("ex", "absent")]).replace("VIEW view\n", ""))
+                      blueprints=[pk.get("bp", "g")], empties=[pk.get("ex", "absent")], formats=[pk.get("fmt", "flowir")],
+                      stales=[pk.get("stale", False)]).replace("VIEW view\n", ""))
     r = tlc.run_tlc("InstanceStore", c, workers=1, timeout=300)
     os.remove(c)
     by = {json.dumps(x["hist"], sort_keys=True): x for x in r["cases"]}
